@@ -73,14 +73,36 @@ def gen_cli_table(ctx):
         with open(p, 'w') as f:
             f.write(text)
     ctx.c18_tables = T
+    try:                                  # last good tables, for the fallback below
+        os.makedirs(os.path.join(V.COQ, 'Corr'), exist_ok=True)
+        with open(_tables_cache(), 'w') as f:
+            json.dump(T, f)
+    except OSError:
+        pass
 
 
 PREBUILD = [gen_cli_table]
 
 
+def _tables_cache():
+    return os.path.join(V.COQ, 'Corr', 'c18_tables_last_good.json')
+
+
 def _tables(ctx):
+    """Tables of the current sources.  When the extractor fails closed (the check
+    is already failing then) fall back to the last good tables -- the ones
+    Gen/CliTable.v still holds -- so that the correspondences and the searcher
+    can still turn the change into a concrete failing input."""
     if not hasattr(ctx, 'c18_tables'):
-        ctx.c18_tables = clitab.tables(V.REPO)
+        try:
+            ctx.c18_tables = clitab.tables(V.REPO)
+        except Exception as ex:
+            if not os.path.exists(_tables_cache()):
+                raise
+            with open(_tables_cache()) as f:
+                ctx.c18_tables = json.load(f)
+            ctx.notes.append('table extraction failed (' + repr(ex)[:200] + '); correspondences and '
+                             'searcher use the last good tables (those of the stale Gen/CliTable.v)')
     return ctx.c18_tables
 
 
@@ -98,7 +120,8 @@ STR_TXT = ['single', 'same', 'V', 'F', 'W', 'LnResistivity', 'Conductivity', 'xy
 LOL_PART = ['None', 'none', 'True', 'False', 'true', '-10000, 10000', '1.05, 1.5', '50',
             '20, 40', ' 1.1,2.0 ', 'NONE', 'xNoney', '30,60', '-4000, 1.111']
 STRS_TXT = ['TxED-1', 'RxEP-05, RxEP-10 ,RxEP-02', 'f-1', 'f-1, f-3', 'Tx11', 'Rx1, Rx2',
-            'a,b,,c', '', ' , ']
+            'a,b,,c', '', ' , ', 'RxEP-5, RxEP-2, RxEP-3', 'RxEP-2, RxEP-10, RxEP-1', 'b, a, b',
+            'f-2, f-1', 'Rx2, Rx1,', 'Tx2,Tx1,Tx2,Tx1']
 FILE_TXT = ['survey', 'model.h5', 'data.json', 'x.npz', 'name.txt', 'my.sim.h5', 'noext',
             'a.b.c', '.hidden', 'trail.', 'unkno.wn', 'results.npz', 'out.JSON', 'sub/inner.npz']
 
@@ -829,8 +852,9 @@ E2E_VALUES = {
     ('noise_opts', 'mean_noise'): [0.5, 0.0],
     ('noise_opts', 'ntype'): ['white_noise', 'gaussian_correlated', 'gaussian_uncorrelated'],
     ('data', 'sources'): [['TxED-1'], ['TxED-2', 'TxED-1']],
-    ('data', 'receivers'): [['RxEP-1', 'RxEP-3'], ['RxEP-2']],
-    ('data', 'frequencies'): [['f-1'], ['f-2']],
+    ('data', 'receivers'): [['RxEP-1', 'RxEP-3'], ['RxEP-2'], ['RxEP-3', 'RxEP-1', 'RxEP-2'],
+                            ['RxEP-3', 'RxEP-2']],
+    ('data', 'frequencies'): [['f-1'], ['f-2'], ['f-2', 'f-1']],
     ('data', 'remove_empty'): [True, False],
     ('layered', 'method'): ['cylinder', 'prism', 'midpoint', 'source', 'receiver'],
     ('layered', 'radius'): [300.0, 600.0],
@@ -1290,6 +1314,98 @@ def _scen_mode(e, name):
 MODES = ['save', 'load', 'clean', 'clean_gopts', 'cache']
 
 
+# --------------------------------------- [data] selections as written
+# text of the [data] section  ->  the lists the API equivalent is called with:
+# split at ',', strip, ORDER AS WRITTEN, NO de-duplication, empty names kept
+# (Props/C18.v strlist_order_as_written; Survey.select keeps the order it is given).
+DATA_SCEN = {
+    'unsorted': ('sources = TxED-2, TxED-1\nreceivers = RxEP-3, RxEP-1, RxEP-2\nfrequencies = f-2, f-1\n',
+                 dict(sources=['TxED-2', 'TxED-1'], receivers=['RxEP-3', 'RxEP-1', 'RxEP-2'],
+                      frequencies=['f-2', 'f-1'])),
+    'unsorted_rec': ('receivers = RxEP-3,RxEP-2\n', dict(receivers=['RxEP-3', 'RxEP-2'])),
+    'repeated': ('receivers = RxEP-2, RxEP-1, RxEP-2\n',
+                 dict(receivers=['RxEP-2', 'RxEP-1', 'RxEP-2'])),
+    'trailing': ('receivers = RxEP-3, RxEP-1,\n', dict(receivers=['RxEP-3', 'RxEP-1', ''])),
+}
+
+
+def _scen_data(e, name, fn='forward'):
+    """Real run with a [data] selection written in non-sorted order / with a
+    repeated name / with a trailing comma, against survey.select(<the lists as
+    written>) + Simulation through the API; the written data array is compared
+    entry by entry, and the survey inside the --save file must list sources,
+    receivers and frequencies in the order written."""
+    emg3d, np = e.emg3d, e.np
+    d = e.dir
+    dtext, lists = DATA_SCEN[name]
+    text = ('[files]\nsurvey = survey.h5\nmodel = model.h5\n[simulation]\ngridding = same\n'
+            'max_workers = 1\n[solver_opts]\nmaxit = 1\nplain = True\n[noise_opts]\nadd_noise = False\n'
+            '[data]\n' + dtext)
+    args = ['--path', d, _FLAG[fn], '--output', 'emg3d_out.h5', '--save', 'simD.h5']
+    simf = os.path.join(d, 'simD.h5')
+    if os.path.exists(simf):
+        os.remove(simf)
+    a = e.cli(text, args)
+    order_api = None
+    try:
+        with warnings.catch_warnings(), contextlib.redirect_stderr(_io.StringIO()), \
+                contextlib.redirect_stdout(_io.StringIO()):
+            warnings.simplefilter('ignore')
+            survey = emg3d.load(os.path.join(d, 'survey.h5'), verb=0)['survey']
+            model = emg3d.load(os.path.join(d, 'model.h5'), verb=0)['model']
+            survey = survey.select(sources=lists.get('sources'), receivers=lists.get('receivers'),
+                                   frequencies=lists.get('frequencies'), remove_empty=False)
+            order_api = [list(survey.sources), list(survey.receivers), list(survey.frequencies)]
+            sim = emg3d.Simulation(survey=survey, model=model, gridding='same', max_workers=1,
+                                   solver_opts={'maxit': 1, 'plain': True}, verb=-1, tqdm_opts=False,
+                                   name='emg3d CLI run',
+                                   **({'receiver_interpolation': 'linear'} if fn == 'gradient' else {}))
+            if fn == 'forward':
+                sim.compute(observed=True, add_noise=False)
+                b = {'data': sim.data.observed}
+            else:
+                sim.compute()
+                b = {'data': sim.data.synthetic, 'misfit': sim.misfit,
+                     'n_observations': sim.survey.count}
+                if fn == 'gradient':
+                    b['gradient'] = sim.gradient
+    except Exception as ex:
+        b = {'err': type(ex).__name__, 'msg': str(ex)[:300]}
+    e.n += 1
+    ok, why = e.same(a, b)
+    order_cli = None
+    if ok and 'err' not in a:
+        try:
+            with warnings.catch_warnings():
+                warnings.simplefilter('ignore')
+                sv = emg3d.Simulation.from_file(simf, verb=0).survey
+            order_cli = [list(sv.sources), list(sv.receivers), list(sv.frequencies)]
+        except Exception as ex:
+            order_cli = 'unreadable: ' + repr(ex)[:100]
+        if order_cli != order_api:
+            ok, why = False, f'order of the survey in the --save file: CLI {order_cli} / API {order_api}'
+    if ok:
+        return None
+    if 'err' not in a and 'err' not in b:
+        why += _detail(np, a, b) + _first_entry(np, a, b)
+    return {'signature': f"C18: [data] selection as written ({name}): CLI != survey.select(...) + API",
+            'scenario': f'data:{name}:{fn}', 'config_text': text, 'cli_args': args,
+            'api_select': lists, 'observed': why, 'cli': _outcome(a), 'api': _outcome(b),
+            'required': 'sources/receivers/frequencies are used in the order written, without '
+                        'de-duplication: the data array equals the API result entry by entry'}
+
+
+def _first_entry(np, a, b):
+    x, y = np.asarray(a.get('data')), np.asarray(b.get('data'))
+    if x.shape != y.shape or x.ndim != 3:
+        return ''
+    neq = ~((x == y) | (np.isnan(x) & np.isnan(y)))
+    if not neq.any():
+        return ''
+    i = tuple(int(v) for v in np.argwhere(neq)[0])
+    return f' [first differing entry data{list(i)}: CLI {complex(x[i])!r} / API {complex(y[i])!r}]'
+
+
 # ------------------------------------------------- multi-step CLI sequences
 SEQ_KINDS = ['load', 'load_clean', 'cache', 'cache_clean']
 _FLAG = {'forward': '-f', 'misfit': '-m', 'gradient': '-g'}
@@ -1454,13 +1570,28 @@ def _hit_from_spec(e, spec, sig_prefix, scenario):
 
 
 def doc_keys(T):
+    if T is None:
+        return list(E2E_VALUES)
     return [(s, k) for (s, k, ty) in T['doc']['doc'] if (s, k) in E2E_VALUES]
+
+
+def _tables_or_none(ctx):
+    """Tables, or None when they can neither be extracted nor recalled (the
+    end-to-end scenarios then run on the static documented-key list)."""
+    try:
+        return _tables(ctx)
+    except Exception as ex:
+        if not getattr(ctx, 'c18_no_tables_noted', False):
+            ctx.c18_no_tables_noted = True
+            ctx.notes.append('no option tables available (' + repr(ex)[:160] + '): parse/run '
+                             'correspondences skipped, end-to-end scenarios use the static key list')
+        return None
 
 
 def e2e_sample(ctx, dis, hist, samples):
     """Small end-to-end sample for the quick tier (and first stage of the
     searcher): a few documented keys, all precedence scenarios, all modes."""
-    T = _tables(ctx)
+    T = _tables_or_none(ctx)
     rng = ctx.rng
     e = E2E()
     n = 0
@@ -1488,6 +1619,12 @@ def e2e_sample(ctx, dis, hist, samples):
             elif h:
                 dis.append({'what': 'end-to-end mode: ' + h['observed'], 'case': h,
                             'signature': h['signature']})
+        for nm in DATA_SCEN:
+            h = _scen_data(e, nm, 'forward' if nm != 'unsorted_rec' else 'misfit')
+            hist['e2e:data'] = hist.get('e2e:data', 0) + 1
+            if h:
+                dis.append({'what': 'end-to-end [data] selection: ' + h['observed'], 'case': h,
+                            'signature': h['signature']})
         seqs = SEQ_QUICK + [ctx.rng.choice(seq_product())]
         if ctx.thorough:
             seqs += ctx.rng.sample(seq_product(), 6)
@@ -1505,13 +1642,18 @@ def e2e_sample(ctx, dis, hist, samples):
 # ------------------------------------------------------------ driver API
 def correspondence(ctx):
     dis, hist, samples = [], {}, []
-    np_, nt_p = parse_correspondence(ctx, 2400 if ctx.thorough else 300, dis, hist, samples)
-    nr, nt_r = run_correspondence(ctx, 900 if ctx.thorough else 140, dis, hist, samples)
+    T = _tables_or_none(ctx)
+    np_ = nt_p = nr = nt_r = 0
+    if T is not None:
+        np_, nt_p = parse_correspondence(ctx, 2000 if ctx.thorough else 300, dis, hist, samples)
+        nr, nt_r = run_correspondence(ctx, 900 if ctx.thorough else 140, dis, hist, samples)
+    else:
+        dis.append({'what': 'option tables unavailable: parse/run correspondences could not run'})
     ne = e2e_sample(ctx, dis, hist, samples)
-    T = _tables(ctx)
-    doc = {(s, k) for (s, k, t) in T['doc']['doc']}
-    und = [f'[{s}] {k}' for (s, k, t, p) in T['parser']['entries'] if (s, k) not in doc]
-    ctx.notes.append('parsed but undocumented options: ' + ', '.join(und))
+    if T is not None:
+        doc = {(s, k) for (s, k, t) in T['doc']['doc']}
+        und = [f'[{s}] {k}' for (s, k, t, p) in T['parser']['entries'] if (s, k) not in doc]
+        ctx.notes.append('parsed but undocumented options: ' + ', '.join(und))
     ctx.notes.append('unknown SECTIONS of the configuration file are silently ignored by '
                      'parse_config_file (only unknown keys inside known sections are rejected)')
     return {
@@ -1537,13 +1679,13 @@ def correspondence(ctx):
 
 
 def search(ctx, broken):
-    T = _tables(ctx)
+    T = _tables_or_none(ctx)
     rng = ctx.rng
     hits = []
     e = E2E()
     try:
         # 1. aim at what the tables say is not accepted downstream
-        for (s, k, ty, pa) in not_accepted(T):
+        for (s, k, ty, pa) in (not_accepted(T) if T is not None else []):
             if (s, k) in E2E_VALUES:
                 spec = {'function': 'forward', 'format': 'h5',
                         'opts': {**base_opts(s, k), (s, k): E2E_VALUES[(s, k)][0]}}
@@ -1561,7 +1703,9 @@ def search(ctx, broken):
             h = _scen_precedence(e, nm)
             if h:
                 hits.append(h)
-        for sec in ['files'] + T['parser']['section_order']:
+        for sec in ['files'] + (T['parser']['section_order'] if T is not None else
+                                ['simulation', 'noise_opts', 'layered', 'solver_opts', 'data',
+                                 'gridding_opts']):
             h = _scen_unknown(e, sec)
             if h:
                 hits.append(h)
@@ -1569,6 +1713,11 @@ def search(ctx, broken):
             h = _scen_mode(e, nm)
             if h and 'harness_error' not in h:
                 hits.append(h)
+        for nm in DATA_SCEN:
+            for fn in (['forward', 'misfit', 'gradient'] if ctx.thorough else ['forward']):
+                h = _scen_data(e, nm, fn)
+                if h and not any(x['signature'] == h['signature'] for x in hits):
+                    hits.append(h)
         # 2b. CLI histories: save -> load / cache (+clean with another model) -> load
         allseq = seq_product()
         seqs = allseq if ctx.thorough else SEQ_QUICK + rng.sample(allseq, 10)
@@ -1586,7 +1735,7 @@ def search(ctx, broken):
                         seen.add(h['signature'])
                         hits.append(h)
             ok_keys = [p for p in keys if not any(f'[{p[0]}] {p[1]}' in sg for sg in seen)]
-            for _ in range(60 if ctx.thorough else 12):
+            for _ in range(40 if ctx.thorough else 12):
                 h = _hit_from_spec(e, combo_spec(rng, ok_keys), '', 'spec')
                 if h and h['signature'] not in seen:
                     seen.add(h['signature'])
@@ -1614,6 +1763,9 @@ def replay(ctx, payload):
             return _scen_unknown(e, name) is None
         if kind == 'mode':
             return _scen_mode(e, name) is None
+        if kind == 'data':
+            nm, fn = name.split(':')
+            return _scen_data(e, nm, fn) is None
         if kind == 'sequence':
             fn1, k2, fn2, fn3 = name.split(':')
             return _scen_sequence(e, fn1, k2, fn2, None if fn3 == '-' else fn3) is None
